@@ -187,3 +187,47 @@ Example C12_example_trace :
   = [ (Ok tt, true, [1; 1; 1]%nat); (Err EFilteredSave, true, [1; 1; 1]%nat);
       (Ok tt, true, [3; 2; 2]%nat); (Ok tt, false, [2; 1; 1]%nat); (Ok tt, false, [2; 1; 1]%nat) ].
 Proof. vm_compute. reflexivity. Qed.
+
+(* ---------------------------------------------------------------------------------------------------------------
+   Of the SOURCE: filter_line, filter_words and the `is_empty_filter` expression of
+   FilteredFileAdapter.load_filtered_policy (casbin/persist/adapters/filtered_file_adapter.py) are re-translated on every
+   run into programs of the language of FiltLang.v (coq/gen/FilterGen.v); FilterTie.v proves, for EVERY line and every
+   filter (any two lists of strings of any length), that the interpreter run on them computes Filtered.filter_words /
+   filter_line / is_empty_filter - the functions the theorems above are about: the naive split, the key test, the
+   blank-G shortcut, the length clause, the position-by-position comparison with its break, and the "nothing but blanks"
+   test that turns a filtered load into a full one.  load_policy_line, which loads each kept line, is tied the same way
+   (LineTie.v, Props/C10.v). *)
+From PyCasbin Require FiltLang FilterTie LineLang LineTie.
+From PyCasbinGen Require FilterGen LoadLineGen.
+
+Theorem C12_source_filter_words : forall line flt,
+  FilterTie.run_words line flt = Ok (FiltLang.FB (filter_words line flt)).
+Proof. exact FilterTie.tie_filter_words. Qed.
+Print Assumptions C12_source_filter_words.
+
+Theorem C12_source_filter_line : forall line P G,
+  FilterTie.run_line line P G = Ok (FiltLang.FB (filter_line line P G)).
+Proof. exact FilterTie.tie_filter_line. Qed.
+Print Assumptions C12_source_filter_line.
+
+Theorem C12_source_is_empty_filter : forall P G,
+  FilterTie.run_is_empty P G = Ok (FiltLang.FB (is_empty_filter P G)).
+Proof. exact FilterTie.tie_is_empty_filter. Qed.
+Print Assumptions C12_source_is_empty_filter.
+
+Theorem C12_source_load_policy_line : forall line m,
+  LineLang.lrun LineTie.LFUEL LoadLineGen.lv_line LoadLineGen.load_line_locals LoadLineGen.load_line_gen line m =
+  Csv.load_policy_line line m.
+Proof. exact LineTie.tie_load_policy_line. Qed.
+Print Assumptions C12_source_load_policy_line.
+
+(* the regenerated filter on a concrete line: "p, alice, data1, read" is skipped by P = ["", "data2"] (position 2
+   differs), kept by P = ["", " data1 "], skipped by P of five positions (length clause); "g, a, b" is kept by G = [" "] *)
+Example C12_source_example :
+  FilterTie.run_line [112;44;32;97;108;105;99;101;44;32;100;97;116;97;49;44;32;114;101;97;100] [[]; [100;97;116;97;50]] [] = Ok (FiltLang.FB true)
+  /\ FilterTie.run_line [112;44;32;97;108;105;99;101;44;32;100;97;116;97;49;44;32;114;101;97;100] [[]; [32;100;97;116;97;49;32]] [] = Ok (FiltLang.FB false)
+  /\ FilterTie.run_line [112;44;32;97;108;105;99;101;44;32;100;97;116;97;49;44;32;114;101;97;100] [[];[];[];[];[]] [] = Ok (FiltLang.FB true)
+  /\ FilterTie.run_line [103;44;32;97;44;32;98] [[120]] [[32]] = Ok (FiltLang.FB false)
+  /\ FilterTie.run_is_empty [[32]; []] [] = Ok (FiltLang.FB true)
+  /\ FilterTie.run_is_empty [[32]; [120]] [] = Ok (FiltLang.FB false).
+Proof. vm_compute. repeat split; reflexivity. Qed.
